@@ -17,6 +17,7 @@ const (
 	SigF18      = "xref-stream-size-exceeds-8192+32*rawLen"
 	SigDeferred = "deferred-stream-put-close-reports-duplicate"
 	SigPreFilt  = "openstream-dict-filter-plus-filters-order"
+	SigHuge     = "writecompressed-more-than-10000-objects-unreadable"
 )
 
 type Query struct {
@@ -236,6 +237,8 @@ func Check(res *Result) *ReadBack {
 			rb.Obs[q.Ref] = "error"
 			if w != nil && w.Unreadable {
 				fail(SigPreFilt, "%v: %v", q.Ref, err)
+			} else if res.HugeBatch && strings.Contains(err.Error(), "no valid /N") {
+				fail(SigHuge, "WriteCompressed accepted more than 10000 objects; the Reader refuses the object stream: Get(%v): %v", q.Ref, err)
 			} else {
 				fail("get-error", "Get(%v): %v", q.Ref, err)
 			}
